@@ -101,8 +101,12 @@ def _get_flat(ps):
     return torch.cat([p.detach().reshape(-1) for p in ps]).clone()
 
 
-def _fd_check(h, loss_fn, seed, site, cfg, stats, seq, rtol=1e-4):
-    """autograd gradient of loss_fn() vs central differences along seeded unit directions"""
+def _fd_check(h, loss_fn, seed, site, cfg, stats, seq, rtol=1e-4, envelope=None):
+    """autograd gradient of loss_fn() vs central differences along seeded unit directions.
+
+    envelope = (pl_fn, lam, precision) for quadratic CVaR: the criterion is min_w F(pl, w) with the inner minimiser found by
+    bisection to `precision` and held constant by autograd; the gradient is therefore exact only up to
+    |d2F/(dw dtheta)| * |w~ - w*| <= 2 lam mean|d pl / d theta| precision, which is added to the tolerance."""
     ps = _flat_params(h)
     if not ps:
         return False
@@ -135,7 +139,20 @@ def _fd_check(h, loss_fn, seed, site, cfg, stats, seq, rtol=1e-4):
                 lm = float(loss_fn())
             fd = (lp - lm) / (2 * hstep)
             stats.checks += 1
-            if abs(fd - ana) <= rtol * max(abs(fd), abs(ana)) + 1e-9:
+            extra = 0.0
+            if envelope is not None and not abs(fd - ana) <= rtol * max(abs(fd), abs(ana)) + 1e-9:
+                pl_fn, lam, prec = envelope
+                with torch.no_grad():
+                    _set_flat(ps, theta0 + hstep * v)
+                    plp = pl_fn()
+                    _set_flat(ps, theta0 - hstep * v)
+                    plm = pl_fn()
+                extra = max(2.0 * lam * prec * float(((a - b) / (2 * hstep)).abs().mean()) for a, b in zip(plp, plm))
+                if extra == extra and extra > 0:
+                    stats.probe("envelope_precision_term")
+                else:
+                    extra = 0.0
+            if abs(fd - ana) <= rtol * max(abs(fd), abs(ana)) + 1e-9 + extra:
                 bad = None
                 if mult != 1.0:
                     stats.probe("fd_retry_other_h")
@@ -235,12 +252,23 @@ def _execute(program, stats, hist):
             if name == "fd_frozen":
                 def loss_fn():
                     return h.criterion(h.compute_portfolio(d, hedge=hedge), d.payoff())
+
+                def pl_fn():
+                    return [h.compute_portfolio(d, hedge=hedge) - d.payoff()]
                 site = "criterion(compute_portfolio,payoff)[%s]" % ("stepwise" if has_prev else "vectorised")
                 stats.probe("fd_frozen")
             else:
                 def loss_fn():
                     torch.manual_seed(op["torch_seed"])
                     return h.compute_loss(d, hedge=hedge, n_paths=op["n_paths"], n_times=op["n_times"])
+
+                def pl_fn():
+                    torch.manual_seed(op["torch_seed"])
+                    out = []
+                    for _ in range(op["n_times"]):
+                        d.simulate(n_paths=op["n_paths"])
+                        out.append(h.compute_portfolio(d, hedge=hedge) - d.payoff())
+                    return out
                 site = "compute_loss[%s]" % ("stepwise" if has_prev else "vectorised")
                 stats.probe("fd_replay")
                 stats.fault("F7_rng_replay")
@@ -256,7 +284,8 @@ def _execute(program, stats, hist):
                 # quadratic CVaR solves its inner minimisation by bisection to precision ~1e-6: the autograd gradient carries
                 # an error of order 2*lam*precision*|d omega/d theta| (envelope term not exactly zero), i.e. up to ~1e-3 relative
                 rtol = 3e-3 if cspec["kind"] == "QuadraticCVaR" else 1e-4
-                did = _fd_check(h, loss_fn, op["seed"], site, cfg, stats, seq, rtol=rtol)
+                env = (pl_fn, float(cspec.get("lam", 10.0)), 1e-6) if cspec["kind"] == "QuadraticCVaR" else None
+                did = _fd_check(h, loss_fn, op["seed"], site, cfg, stats, seq, rtol=rtol, envelope=env)
             except (Violation, Inconclusive):
                 raise
             except Exception as e:
